@@ -349,7 +349,8 @@ def enumerate_splits(tier: str) -> Any:
                         "ws_upgrade": "WebSocket",
                         "first": {"path": "/r0", "body_len": 5 if kind == "h2c_body" else 0,
                                   "seed": 1, "chunked": settings == "chunked"},
-                        "follow": list(FIXED_FOLLOW), "follow_when": when, "settings": settings,
+                        "follow": list(FIXED_FOLLOW), "follow_when": when,
+                        "settings": "default" if settings == "chunked" else settings,
                         "ws_msg": "hé", "seg": None}
                 b = build(case)
                 total = len(b["opening"]) + (len(b["rest"]) if when == "same" else 0)
